@@ -118,6 +118,13 @@ struct Shared {
     viol: StdMutex<Vec<String>>,
 }
 
+/// address of the first handle in thread `t`'s bag (the bag lock is released on return)
+fn first_handle(sh: &Shared, t: usize) -> *const Text {
+    let g = sh.bag[t].lock().unwrap();
+    let r: &Text = &g[0];
+    r as *const Text
+}
+
 fn worker(sh: Arc<Shared>, sched: Arc<Sched>, t: usize) {
     let _g = coop::enter(&sched, t);
     loop {
@@ -126,14 +133,14 @@ fn worker(sh: Arc<Shared>, sched: Arc<Sched>, t: usize) {
         match cmd {
             Cmd::Clone => {
                 // borrow a handle (it stays in the bag), clone through it
-                let p: *const Text = &*sh.bag[t].lock().unwrap()[0];
+                let p: *const Text = first_handle(&sh, t);
                 // SAFETY: only this thread removes from its bag, and it is busy here
                 let c = unsafe { (*p).clone() };
                 with_track(|tr| tr.handles += 1);
                 sh.bag[t].lock().unwrap().push(Box::new(c));
             }
             Cmd::Read => {
-                let p: *const Text = &*sh.bag[t].lock().unwrap()[0];
+                let p: *const Text = first_handle(&sh, t);
                 coop::yield_point("read");
                 // SAFETY: as above
                 let s: &str = unsafe { (*p).as_str() };
@@ -434,7 +441,7 @@ fn main() {
     }
 
     let big = args.thorough() || args.search;
-    let exh: &[(usize, usize)] = if big { &[(2, 9), (3, 7)] } else { &[(2, 7), (3, 5)] };
+    let exh: &[(usize, usize)] = if big { &[(2, 10), (3, 8)] } else { &[(2, 8), (3, 6)] };
     for &(n, depth) in exh {
         let mut dfs = Dfs::new(depth);
         let mut runs = 0u64;
